@@ -686,6 +686,110 @@ func (d *strDom) search(e *Engine, st *State, lo, hi linForm, targets []int64, p
 	return outs
 }
 
+// cellMay: can character cell c be byte t on this path? (definitely, possibly)
+func (d *strDom) cellMay(st *State, c scell, t byte) (definitely, possibly bool) {
+	if c.gap {
+		return false, false
+	}
+	if k, known := st.KnownInt(c.val); known {
+		return k == int64(t), k == int64(t)
+	}
+	if strings.ContainsRune(c.excl, rune(t)) || (c.wide && t < 0x80) {
+		return false, false
+	}
+	l, h, _ := st.intRange(c.val)
+	if int64(t) < l || int64(t) > h || st.Excluded(c.val)[int64(t)] {
+		return false, false
+	}
+	return false, true
+}
+
+// searchSeq models strings.Index(text[lo:hi], needle) for a constant needle of several bytes: the first cell at which
+// the needle's bytes stand one after the other. Cells that may or may not be a byte of the needle fork the path.
+func (d *strDom) searchSeq(e *Engine, st *State, lo, hi linForm, needle string, pos token.Pos) []CallOut {
+	j0 := d.at(st, lo)
+	if j0 < 0 || d.at(st, hi) < 0 {
+		d.note(st, "misaligned", "a search starts or ends inside a character or an unexamined stretch", pos)
+		return []CallOut{{St: st, Res: []AV{avSym{id: e.fresh(), tag: "index?"}}}}
+	}
+	var outs []CallOut
+	var walk func(st *State, j int, depth int)
+	// rest: do needle[k:] stand at cell j onwards? calls yes/no with the state of each alternative
+	var rest func(st *State, j, k int, yes, no func(*State))
+	rest = func(st *State, j, k int, yes, no func(*State)) {
+		if k == len(needle) {
+			yes(st)
+			return
+		}
+		for _, o := range d.openAt(e, st, j, 0) {
+			cs := d.cells(o.st)
+			if j1 := d.at(o.st, hi); o.j >= j1 || o.j >= len(cs) {
+				no(o.st)
+				continue
+			}
+			c := cs[o.j]
+			def, may := d.cellMay(o.st, c, needle[k])
+			switch {
+			case def:
+				rest(o.st, o.j+1, k+1, yes, no)
+			case may:
+				sy, _ := c.val.(avSym)
+				s2 := o.st.clone()
+				if s2.assumeInt(s2.idOf(sy), token.EQL, int64(needle[k])) {
+					rest(s2, o.j+1, k+1, yes, no)
+				}
+				if o.st.assumeInt(o.st.idOf(sy), token.NEQ, int64(needle[k])) {
+					no(o.st)
+				}
+			default:
+				no(o.st)
+			}
+		}
+	}
+	walk = func(st *State, j int, depth int) {
+		if depth > 12 {
+			d.note(st, "unsupported", "a search for a sequence of bytes goes on beyond the bound of the interpretation", pos)
+			return
+		}
+		cs := d.cells(st)
+		j1 := d.at(st, hi)
+		for ; j < j1 && j < len(cs); j++ {
+			c := cs[j]
+			if c.gap {
+				if !strings.ContainsRune(c.excl, rune(needle[0])) {
+					d.note(st, "unsupported", "a sequence of bytes is searched for in a stretch of text that may contain its first byte", pos)
+				}
+				continue
+			}
+			def, may := d.cellMay(st, c, needle[0])
+			if !def && !may {
+				continue
+			}
+			if !def {
+				sy, _ := c.val.(avSym)
+				s2 := st.clone()
+				if s2.assumeInt(s2.idOf(sy), token.NEQ, int64(needle[0])) {
+					walk(s2, j+1, depth+1)
+				}
+				if !st.assumeInt(st.idOf(sy), token.EQL, int64(needle[0])) {
+					return
+				}
+			}
+			jj := j
+			rest(st, j+1, 1, func(s *State) {
+				b := d.boundaries(s)
+				outs = append(outs, CallOut{St: s, Res: []AV{d.lfAV(lfAdd(b[jj], lo, -1))}})
+			}, func(s *State) {
+				walk(s, jj+1, depth+1)
+			})
+			return
+		}
+		outs = append(outs, CallOut{St: st, Res: []AV{avConst{constant.MakeInt64(-1)}}})
+	}
+	walk(st, j0, 0)
+	return outs
+}
+
 func (d *strDom) builderKey(v AV) string { return avKey(v) }
 
 func (d *strDom) Call(e *Engine, st *State, site ssa.CallInstruction, callee *ssa.Function, args []AV, depth int) ([]CallOut, bool) {
@@ -713,6 +817,15 @@ func (d *strDom) Call(e *Engine, st *State, site ssa.CallInstruction, callee *ss
 				}
 			} else if len(s) == 1 {
 				targets = []int64{int64(s[0])}
+			} else if len(s) > 1 && len(s) <= 4 && (name == "strings.Index" || name == "strings.Contains") {
+				outs := d.searchSeq(e, st, lo, hi, s, site.Pos())
+				if name == "strings.Contains" {
+					for i := range outs {
+						k, known := outs[i].St.KnownInt(outs[i].Res[0])
+						outs[i].Res = []AV{avConst{constant.MakeBool(!known || k >= 0)}}
+					}
+				}
+				return outs, true
 			}
 		}
 		if len(targets) == 0 {
@@ -819,7 +932,19 @@ func (d *strDom) Call(e *Engine, st *State, site ssa.CallInstruction, callee *ss
 	case "(*strings.Builder).Len":
 		return one(avSym{id: e.fresh(), tag: "builder-len"})
 	case "(*strings.Builder).WriteByte", "(*strings.Builder).WriteRune":
-		d.addItem(st, d.builderKey(args[0]), d.charItem(st, args[1]))
+		it := d.charItem(st, args[1])
+		if name == "(*strings.Builder).WriteRune" && it.kind == "range" {
+			// a single byte of the text written as a rune: the byte itself only when the path pins it to ASCII; the lead
+			// or continuation byte of a longer character is re-encoded as the Latin-1 character of the same number
+			if _, hi, _ := st.intRange(args[1]); hi >= 0x80 {
+				for _, c := range d.cells(st) {
+					if !c.gap && avKey(c.val) == avKey(args[1]) && (c.isByte || c.wide) {
+						it = sitem{kind: "rune", v: avSym{tag: "reencoded-byte", payload: args[1]}}
+					}
+				}
+			}
+		}
+		d.addItem(st, d.builderKey(args[0]), it)
 		if name == "(*strings.Builder).WriteByte" {
 			return one(avNil{})
 		}
